@@ -215,9 +215,31 @@ def symbol_table(ctx, py: PyRepo):
     for mname, mi in py.modules.items():
         scan(mname, '<module>', None, [n for st in mi.tree.body if not isinstance(st, (ast.FunctionDef, ast.ClassDef)) for n in ast.walk(st)])
     rebinds = [(m, f) for m, f, k, _n in writes if k == 'rebind']
-    ctx.ob('one-symbol-table', 'created-once', rebinds == [('serializing_interpreter', '__init__')],
-           f'the symbol table is (re)created in {rebinds}: it must be created in __init__ only, otherwise ids restart between the three files',
-           where)
+    # the table may live on an object the serializer keeps for itself (`self._encoder = _Encoder(..)`): then that object must be
+    # created once per serializer, i.e. the attribute holding it is bound in the serializer's __init__ only
+    from ..core.pyfacts import enclosing_def, helper_objects
+    holders = helper_objects(py, ci)
+    owner_cls = set()
+    for m, f, k, n_ in writes:
+        if k == 'rebind' and m == 'serializing_interpreter':
+            for c_ in py.modules[m].classes.values():
+                if any(n_ is x for g in c_.methods.values() for x in ast.walk(g)):
+                    owner_cls.add(c_.name)
+    holder_ok, holder_why = True, ''
+    table_holders = [a for a, (k_, _args) in holders.items() if k_.name in owner_cls and k_.name != ci.name]
+    for a in table_holders:
+        sites = [(c_.name, g.name) for c_ in py.mro(ci) for g in c_.methods.values() for n_ in ast.walk(g)
+                 if isinstance(n_, (ast.Assign, ast.AnnAssign, ast.AugAssign, ast.Delete))
+                 for t in (n_.targets if isinstance(n_, (ast.Assign, ast.Delete)) else [n_.target])
+                 if isinstance(t, ast.Attribute) and isinstance(t.value, ast.Name) and t.value.id == 'self' and t.attr == a]
+        if any(g != '__init__' for _c, g in sites):
+            holder_ok = False
+            holder_why = f'; the object holding it (`self.{a}`) is re-created in {sorted({g for _c, g in sites if g != "__init__"})}'
+    if owner_cls - {ci.name} and not table_holders:
+        holder_ok, holder_why = False, f'; the table lives in {sorted(owner_cls)}, which the serializer does not keep as its own object'
+    ctx.ob('one-symbol-table', 'created-once', rebinds == [('serializing_interpreter', '__init__')] and holder_ok,
+           f'the symbol table is (re)created in {rebinds}{holder_why}: it must be created once per serializer, otherwise ids restart '
+           f'between the three files', where)
     others = [(m, f, k) for m, f, k, _n in writes if k not in ('rebind', 'item')]
     ctx.ob('one-symbol-table', 'never-shrinks', not others, f'the symbol table is modified by {others}', where)
     items = [(m, f) for m, f, k, _n in writes if k == 'item']
@@ -228,6 +250,13 @@ def symbol_table(ctx, py: PyRepo):
         for n in ast.walk(f):
             if isinstance(n, ast.Attribute) and n.attr.startswith('_') and n.attr in ci.methods:
                 callers.setdefault(n.attr, set()).add((mname, qn.split('.')[-1]))
+    # ... or a method of the object that holds the table, called by nothing else
+    for a in table_holders:
+        for mname2 in holders[a][0].methods:
+            for mname, qn, f, _ci in py.all_functions():
+                for n in ast.walk(f):
+                    if isinstance(n, ast.Attribute) and n.attr == mname2 and isinstance(n.value, ast.Attribute) and n.value.attr == a:
+                        callers.setdefault(mname2, set()).add((mname, qn.split('.')[-1]))
     for _round in range(3):
         for h, cs in callers.items():
             if cs and all(m == 'serializing_interpreter' and f in allowed for m, f in cs):
@@ -242,6 +271,8 @@ def symbol_table(ctx, py: PyRepo):
     ok = False
     if fn is not None and len(fn.args.args) == 2:
         T, NAME = ('attr', SELF, ATTR), ('param', fn.args.args[1].arg)
+        if len(table_holders) == 1 and ci.name not in owner_cls:
+            T = ('attr', ('attr', SELF, table_holders[0]), ATTR)
         LEN = ('call', ('name', 'len'), (T,), ())
         w = Wiring(py)
         got = w.serializer_cases('symbol')
@@ -371,6 +402,8 @@ def encoding_faithful(ctx, py: PyRepo):
     # hand every sub-pattern on in place and under its own key (shared with C08) - a permuted or re-keyed map publishes another pattern
     from . import c08
     c08.walk_order(ctx, py, w)
+    # the three files get what the module hands the serializer for them (shared with C08)
+    c08.ctor_forwarding(ctx, py)
 
 
 def run(ctx):
